@@ -719,6 +719,7 @@ func (p *Printer) wordPart(wp, next WordPart) {
 		}
 		p.rightParen(wp.Rparen)
 		p.pendingHdocs = append(p.pendingHdocs, outer...)
+		p.wroteSemi = false
 	}
 }
 
@@ -851,6 +852,8 @@ func (p *Printer) cmdSubst(cs *CmdSubst) {
 	p.pendingHdocs = nil
 	defer func() {
 		p.pendingHdocs = append(p.pendingHdocs, outer...)
+		// A separator written inside says nothing about what follows.
+		p.wroteSemi = false
 	}()
 	switch {
 	case cs.TempFile:
